@@ -187,8 +187,18 @@ func runPacer(t *simrt.Tape, keep bool) simrt.Outcome {
 
 	// stall profile
 	stallP := []int{0, 1, 5, 20}[t.Choose(4)] // percent of hits followed by a stall
+	var now time.Duration
 	stallDur := func() time.Duration {
-		switch t.Choose(5) {
+		switch t.Choose(7) {
+		case 5, 6:
+			// a stall of 0.01 .. 3 hit intervals at the current rate: the catch-up ends within the run and leaves
+			// a fraction of an interval over
+			if r := sch.rate(now); r > 1e-9 && !math.IsInf(r, 0) && !math.IsNaN(r) {
+				if d := float64(1+t.Choose(300)) / 100 / r * 1e9; d >= 1 && d < 1e18 {
+					return time.Duration(d)
+				}
+			}
+			return time.Duration(1 + t.Choose(1000))
 		case 0:
 			return time.Duration(1 + t.Choose(1000))
 		case 1:
@@ -207,7 +217,6 @@ func runPacer(t *simrt.Tape, keep bool) simrt.Outcome {
 		stats["probe.long-run"]++
 	}
 	var (
-		now     time.Duration
 		hits    uint64
 		stalled bool // a stall happened since the last positive wait
 		steps   int
@@ -340,10 +349,11 @@ func runPacer(t *simrt.Tape, keep bool) simrt.Outcome {
 				back = now
 			}
 			Sq := sch.S(now - back)
-			if float64(hits) < Sq-1-eps(Sq) {
+			// the count is lowest, relative to the schedule, just before a release: hits-1 released, this one due
+			if float64(hits-1) < Sq-1-eps(Sq) {
 				sch.params["rate_now_per_s"] = sch.rate(now)
-				pr := copyParams(sch.params, "behind", Sq-float64(hits))
-				fail("C01.c-behind", sch.kind, pr, "%s pacer: after honouring its wait, %d hits released by t=%v but the schedule (less 1ns per hit) is %.6f", sch.kind, hits, now, Sq)
+				pr := copyParams(sch.params, "behind", Sq-float64(hits-1))
+				fail("C01.c-behind", sch.kind, pr, "%s pacer: its wait was honoured exactly, yet at t=%v, the instant hit %d is released, %d hits are out and the schedule (less 1ns per hit) is %.6f: more than one hit behind", sch.kind, now, hits, hits-1, Sq)
 				break
 			}
 		}
